@@ -76,7 +76,7 @@ func (rmap *Records) GetRecord(key string) (*Record, bool) {
 
 // RemoveRecord removes a record with the specified key.
 func (rmap *Records) RemoveRecord(key string) error {
-	if _, ok := rmap.Load(key); !ok {
+	if _, ok := rmap.GetRecord(key); !ok {
 		return fmt.Errorf("%w : %s", ErrNotFound, key)
 	}
 	rmap.Delete(key)
